@@ -612,8 +612,7 @@ func runPipelined(sc *pw.Scenario, book *simkit.TapeBook, i int, res []*result, 
 	pipe := simkit.NewSimPipe(rn.PipeCap, sched, log)
 	pipe.Chunks = rn.Chunks
 	pipe.BreakAt = rn.PipeBreak
-	r.rtDir = fmt.Sprintf("/w/rt%d", i)
-	os.MkdirAll(r.rtDir, 0o755)
+	r.rtDir = rtDirFor(rn, i)
 	tee := &teeWriter{w: pipe.Writer()}
 	sched.Go("pack", func(tk *simkit.Task) {
 		log.Add(tk.ID, "op-start", fmt.Sprintf("pack #%d (pipelined)", i))
@@ -643,6 +642,20 @@ func runPipelined(sc *pw.Scenario, book *simkit.TapeBook, i int, res []*result, 
 		out.Probe("pipe-filled-to-capacity")
 	}
 	out.Probe("pipelined-roundtrip")
+}
+
+// rtDirFor creates the (empty) round-trip destination of run i.
+func rtDirFor(rn pw.PackRun, i int) string {
+	d := fmt.Sprintf("/w/rt%d", i)
+	if rn.RtAlias {
+		os.MkdirAll("/w/real-rt", 0o755)
+		if _, err := os.Lstat("/w/alias-rt"); err != nil {
+			os.Symlink("real-rt", "/w/alias-rt")
+		}
+		d = fmt.Sprintf("/w/alias-rt/rt%d", i)
+	}
+	os.MkdirAll(d, 0o755)
+	return d
 }
 
 type teeWriter struct {
@@ -992,6 +1005,13 @@ func checkLinksAndProvenance(out *simkit.Outcome, sc *pw.Scenario, i int, r *res
 				}
 			}
 			final := filepath.Join("/w/src", filepath.Dir(p), e.Link)
+			_, inTree := t.src[p]
+			if !inTree && len(sc.Opts.Allow) > 0 {
+				// a link inside a dereferenced directory whose on-disk target the caller
+				// allow-listed is kept as written; where it leads from the archive position
+				// is then the caller's business
+				continue
+			}
 			if !simkit.Under(final, pw.SrcRoot) {
 				if !allowListed(final, sc.Opts.Allow) {
 					cls := "relative"
@@ -1390,8 +1410,7 @@ func checkRoundTrips(out *simkit.Outcome, sc *pw.Scenario, res []*result, t *tre
 			if r.err != nil || !r.decOK {
 				continue
 			}
-			r.rtDir = fmt.Sprintf("/w/rt%d", i)
-			os.MkdirAll(r.rtDir, 0o755)
+			r.rtDir = rtDirFor(rn, i)
 			rd := simkit.NewSimReader(fmt.Sprintf("rt%d", i), r.data, simkit.ReaderPlan{Chunks: rn.Chunks}, log, nil)
 			log.Add(i, "op-start", fmt.Sprintf("unpack #%d", i))
 			r.unpErr, r.unpPan = doUnpack(rd, r.rtDir, sc.Opts.Allow)
@@ -1429,6 +1448,10 @@ func checkRoundTrips(out *simkit.Outcome, sc *pw.Scenario, res []*result, t *tre
 			if n.Kind == "link" && strings.HasPrefix(n.Target, "/") {
 				allRel = false
 			}
+		}
+		if r.unpErr != nil && len(sc.Opts.Allow) > 0 && !inClass {
+			// an allow-listed out-of-tree link is stored as it is; another destination need not accept it
+			continue
 		}
 		if r.unpErr != nil {
 			if inClass {
